@@ -1353,9 +1353,9 @@ class Backend:
                 ld_lib_path: T.Set[str] = set(os.path.join(env_build_dir, l.get_builddir()) for l in ld_lib_path_libs)
 
                 if ld_lib_path:
-                    t_env.prepend('LD_LIBRARY_PATH', list(ld_lib_path), ':')
+                    t_env.prepend('LD_LIBRARY_PATH', sorted(ld_lib_path), ':')
                     if machine.is_darwin():
-                        t_env.prepend('DYLD_LIBRARY_PATH', list(ld_lib_path), ':')
+                        t_env.prepend('DYLD_LIBRARY_PATH', sorted(ld_lib_path), ':')
 
             ts = TestSerialisation(t.get_name(), t.project_name, t.suite, cmd, is_cross,
                                    exe_wrapper, self.environment.need_exe_wrapper(),
